@@ -716,6 +716,13 @@ class Simplifier:
                 elif isinstance(val, list) and val and isinstance(val[0], ast.expr) and fld != 'targets':
                     setattr(s, fld, [self.fold_expr(v, local) for v in val])
             out.append(s)
+        # what follows a return / raise / break / continue in its own block is never run
+        for k, st_ in enumerate(out):
+            if isinstance(st_, (ast.Return, ast.Raise, ast.Break, ast.Continue)) and k + 1 < len(out):
+                if getattr(self, 'gate_open', False) or self.via or self.inlined or not self.only_after_inlining:
+                    out = out[:k + 1]
+                    self.changed = True
+                break
         # a lone `pass` left behind in a block that has other statements
         if len(out) > 1:
             out = [s for s in out if not isinstance(s, ast.Pass)] or out[:1]
@@ -844,10 +851,13 @@ class Simplifier:
             return self._pure(e.left, local) and all(self._pure(c, local) for c in e.comparators)
         return False
 
-    def _first_helper_call(self, e, local):
-        """the first call of a new helper the expression evaluates, if everything evaluated before it is pure and it is evaluated
-        unconditionally -> (parent node, field, index or None, call)"""
+    def _first_helper_call(self, e, local, pred=None):
+        """the first call of a new helper the expression evaluates (or the first node satisfying `pred`), if everything evaluated
+        before it is pure and it is evaluated unconditionally -> (parent node, field, index or None, node)"""
         found = []
+        if pred is None:
+            pred = lambda c: isinstance(c, ast.Call) and self._helper(c, local) is not None and \
+                all(self._pure(a, local) for a in c.args) and all(self._pure(k.value, local) for k in c.keywords)
 
         def order(n):
             # children in evaluation order, with a flag: is the child evaluated whenever n is?
@@ -903,8 +913,7 @@ class Simplifier:
                     if not self._pure(c, local):
                         return 'stop'
                     continue
-                if isinstance(c, ast.Call) and self._helper(c, local) is not None and \
-                        all(self._pure(a, local) for a in c.args) and all(self._pure(k.value, local) for k in c.keywords):
+                if pred(c):
                     found.append((parent, fld, idx, c))
                     return 'found'
                 r = walk(c)
@@ -915,7 +924,7 @@ class Simplifier:
             if isinstance(n, (ast.Subscript, ast.BinOp, ast.Compare)) and not self._pure(n, local):
                 return 'stop'        # may run user code (__getitem__, __add__, __eq__): order matters after it
             return 'pure'
-        r = walk(e) if not (isinstance(e, ast.Call) and self._helper(e, local) is not None) else 'stop'
+        r = walk(e) if not (isinstance(e, ast.Call) and self._helper(e, local) is not None and pred is None) else 'stop'
         return found[0] if found else None
 
     def hoist(self, s, local):
@@ -1107,12 +1116,22 @@ class Simplifier:
         """x = TABLE[E] with E a plain reference and TABLE a constant table of function references: the if / elif chain that picks
         the entry (keys with the same entry grouped), ending in `raise KeyError(E)`"""
         for i, st in enumerate(stmts):
-            if isinstance(st, ast.Assign) and len(st.targets) == 1 and isinstance(st.targets[0], ast.Name) and isinstance(st.value, ast.Subscript) \
-                    and not _const(st.value.slice) and self._pure(st.value.slice, local):
-                t = self.const_table(st.value.value, local)
+            tab_e = key_e = None
+            default = 'raise'
+            if isinstance(st, ast.Assign) and len(st.targets) == 1 and isinstance(st.targets[0], ast.Name):
+                v_ = st.value
+                if isinstance(v_, ast.Subscript) and not _const(v_.slice) and self._pure(v_.slice, local):
+                    tab_e, key_e = v_.value, v_.slice
+                elif isinstance(v_, ast.Call) and isinstance(v_.func, ast.Attribute) and v_.func.attr == 'get' and not v_.keywords and \
+                        1 <= len(v_.args) <= 2 and not _const(v_.args[0]) and self._pure(v_.args[0], local) and \
+                        (len(v_.args) == 1 or _const(v_.args[1]) or self.stable_ref(v_.args[1], local)):
+                    tab_e, key_e = v_.func.value, v_.args[0]
+                    default = v_.args[1] if len(v_.args) == 2 else ast.Constant(None)
+            if tab_e is not None:
+                t = self.const_table(tab_e, local)
                 if t is not None and isinstance(t[0], ast.Dict) and 1 <= len(t[0].keys) <= 12 and \
                         all(k is not None and _const(k) and isinstance(k.value, (str, int)) for k in t[0].keys) and \
-                        all(self.truthy_ref(v, local) for v in t[0].values):
+                        all(self.stable_ref(v, local) for v in t[0].values):
                     groups = []
                     for k, v in zip(t[0].keys, t[0].values):
                         d = ast.dump(v)
@@ -1122,8 +1141,11 @@ class Simplifier:
                                 break
                         else:
                             groups.append([d, v, [k]])
-                    E = st.value.slice
-                    chain = [ast.copy_location(ast.Raise(ast.Call(ast.Name('KeyError', ast.Load()), [copy.deepcopy(E)], []), None), st)]
+                    E = key_e
+                    if default == 'raise':
+                        chain = [ast.copy_location(ast.Raise(ast.Call(ast.Name('KeyError', ast.Load()), [copy.deepcopy(E)], []), None), st)]
+                    else:
+                        chain = [ast.copy_location(ast.Assign([copy.deepcopy(st.targets[0])], copy.deepcopy(default)), st)]
                     for d, v, ks in reversed(groups):
                         if len(ks) == 1:
                             test = ast.Compare(copy.deepcopy(E), [ast.Eq()], [copy.deepcopy(ks[0])])
@@ -1191,8 +1213,8 @@ class Simplifier:
                         has_cheap = any(not (_const(a[-1].value) or self.stable_ref(a[-1].value, lcl)) for a in arms)
                         if has_cheap and not (uses == [0] and len(inside) == 1 and simple_use):
                             continue
-                        if uses and uses[-1] <= 2 and not later_stores and len(everywhere) == len(inside) \
-                                and not any(isinstance(n, (ast.Return, ast.Break, ast.Continue)) for r in rest[:uses[-1] + 1] for n in ast.walk(r)):
+                        # (statements that return / break / continue are repeated like any other: S(t) after the chain is S(v) in each arm)
+                        if uses and uses[-1] <= 3 and not later_stores and len(everywhere) == len(inside):
                             moved = rest[:uses[-1] + 1]
                             for a in arms:
                                 c = a[-1].value
@@ -1362,6 +1384,19 @@ class Simplifier:
                 del stmts[i]
                 self.changed = True
                 return True
+            # ... or is the first thing the next statement evaluates that is not a plain reference
+            if isinstance(b, (ast.Assign, ast.Return, ast.Expr)) and b.value is not None and not isinstance(b.value, ast.Name):
+                lcl = set(stores(self.f)) | set(_params(self.f.args))
+                hit = self._first_helper_call(b.value, lcl, pred=lambda c: isinstance(c, ast.Name) and c.id == t)
+                if hit is not None:
+                    parent, fld, idx, node = hit
+                    if idx is None:
+                        setattr(parent, fld, a.value)
+                    else:
+                        getattr(parent, fld)[idx] = a.value
+                    del stmts[i]
+                    self.changed = True
+                    return True
             # ... or is the function the next statement calls (the callee is evaluated before its arguments)
             if isinstance(b, (ast.Assign, ast.Return, ast.Expr)) and isinstance(b.value, ast.Call) and isinstance(b.value.func, ast.Name) \
                     and b.value.func.id == t:
